@@ -23,6 +23,8 @@ PMAX = {"char": 127, "int8": 127, "uint8": 255, "int16": 32767, "uint16": 65535,
         "uint32": 2 ** 32 - 1, "int64": 2 ** 63 - 1, "uint64": 2 ** 64 - 1}
 KEYWORDS = ["class", "int", "template", "namespace", "switch", "co_await", "char8_t", "xor_eq", "double"]
 BAD_NAMES = ["1abc", "a-b", "a.b", "a b", "", "été"]
+# not SBE symbolic names: the offending character first, in the middle, last, alone
+BAD_SYMBOLIC = ["1abc", "a-b", "a.b", "a b", "-ab", ".ab", "#ab", "$ab", " ab", "-", "ab-", "ab$", "a+b", "9", "+", "ab "]
 
 
 class XSchema:
@@ -602,7 +604,7 @@ def c08_cases(base, rng, budget=None):
         name_classes = ["InvalidName"]
         if (public and t.name.lower() in referenced) or _is_header_like_member(base, t, cont):
             name_classes = ["InvalidName", "UnknownType", "BadLevelHeader", "BadEncodingType", "WrongKindReference"]
-        bad = rng.choice(BAD_NAMES[:4])
+        bad = rng.choice(BAD_SYMBOLIC)
         edit("name-not-symbolic", name_classes, "%s renamed to %r" % (t.name, bad), on(lambda x: setattr(x, "name", bad)))
         kw = rng.choice(KEYWORDS)
         edit("name-keyword", name_classes, "%s renamed to %r" % (t.name, kw), on(lambda x: setattr(x, "name", kw)))
@@ -712,7 +714,7 @@ def c08_cases(base, rng, budget=None):
         for i, f in enumerate(lv.fields):
             edit("field-type-unknown", ["UnknownType"], "%s.%s type=NoSuchType" % (lv.name, f.name),
                  onl(lambda l, i=i: setattr(l.fields[i], "type_name", "NoSuchType")))
-            bad = rng.choice(BAD_NAMES[:4])
+            bad = rng.choice(BAD_SYMBOLIC)
             edit("name-not-symbolic", ["InvalidName"], "field %s renamed to %r" % (f.name, bad),
                  onl(lambda l, i=i: setattr(l.fields[i], "name", bad)))
             kw = rng.choice(KEYWORDS)
@@ -772,7 +774,7 @@ def c08_cases(base, rng, budget=None):
                      onl(lambda l, i=i: setattr(l.groups[i], "dim", a_type)))
             edit("group-dimension-is-message-header", ["BadLevelHeader"], "%s dimensionType=messageHeader (no numInGroup)" % g.name,
                  onl(lambda l, i=i: setattr(l.groups[i], "dim", base.header)) if "numingroup" not in [m.name.lower() for m in base.find(base.header).members] else (lambda c: False))
-            bad = rng.choice(BAD_NAMES[:4])
+            bad = rng.choice(BAD_SYMBOLIC)
             edit("name-not-symbolic", ["InvalidName"], "group %s renamed to %r" % (g.name, bad),
                  onl(lambda l, i=i: setattr(l.groups[i], "name", bad)))
             kw = rng.choice(KEYWORDS)
@@ -799,7 +801,7 @@ def c08_cases(base, rng, budget=None):
             kw = rng.choice(KEYWORDS)
             edit("name-keyword", ["InvalidName"], "data %s renamed to %r" % (d.name, kw),
                  onl(lambda l, i=i: setattr(l.data[i], "name", kw)))
-            bad = rng.choice(BAD_NAMES[:4])
+            bad = rng.choice(BAD_SYMBOLIC)
             edit("name-not-symbolic", ["InvalidName"], "data %s renamed to %r" % (d.name, bad),
                  onl(lambda l, i=i: setattr(l.data[i], "name", bad)))
 
@@ -807,7 +809,7 @@ def c08_cases(base, rng, budget=None):
     for i, m in enumerate(base.messages):
         kw = rng.choice(KEYWORDS)
         edit("name-keyword", ["InvalidName"], "message %s renamed to %r" % (m.name, kw), lambda c, i=i: setattr(c.messages[i], "name", kw))
-        bad = rng.choice(BAD_NAMES[:4])
+        bad = rng.choice(BAD_SYMBOLIC)
         edit("name-not-symbolic", ["InvalidName"], "message %s renamed to %r" % (m.name, bad), lambda c, i=i: setattr(c.messages[i], "name", bad))
         edit("message-id-not-uint32", ["BadNumber"], "message %s id=2^32" % m.name, lambda c, i=i: setattr(c.messages[i], "id", 1 << 32))
     if len(base.messages) >= 2:
